@@ -18,8 +18,8 @@ of transferred), `addCmd` (toplevel rule: leaves every mode; `webvpn`: `exit` fi
 username's — that mode has a sub-mode of the same name), `setCmdConfMode("webvpn")`, and the part of `deleteUnused` that prints the
 marked toplevel rules in the first round between the tunnel-groups and the usernames.
 
-The commands of this layer are kept apart from the commands of fragment G (`St.out`) with the position at which they were emitted;
-`scriptH` merges them.
+The change list of this layer (`HSt.all`) holds both kinds of commands; whatever a function of fragment G appends to `St.out` is moved
+to it at once (`sync`), so `St.out` is empty between two steps of this layer (the functions of fragment G never read `out`).
 -/
 namespace NA.Vpn.G
 
@@ -60,6 +60,16 @@ def ruleKey (objs : List Obj) (r : Rule) : String :=
       | none => ""
     | none => ""
 
+/-- one command of the change list -/
+inductive Cmd2
+  | g (c : Chg)
+  | h (c : HChg)
+  deriving DecidableEq, Repr, Inhabited
+
+def Cmd2.render : Cmd2 → String
+  | .g c => c.render
+  | .h c => c.render
+
 structure HSt extends St where
   ta : List Rule := []                   -- tunnel-group-map rules of the device / the target
   tb : List Rule := []
@@ -67,14 +77,15 @@ structure HSt extends St where
   wb : Option (List Rule) := none
   tDel : List Nat := []                  -- device tunnel-group-map rules marked toDelete (positions)
   tNeeded : List Nat := []               -- … marked needed
-  extra : List (Nat × HChg) := []        -- commands of this layer with the length of `out` when they were emitted
+  all : List Cmd2 := []                  -- the change list so far
   deriving Repr, Inhabited
 
 /-- the mode of toplevel webvpn in `St.mode` (`subCmdOf = "webvpn"`) -/
 def webMode : Kind × String × String := (Kind.certmap, "", "webvpn")
 
-def HSt.emitH (h : HSt) (c : HChg) : HSt := { h with extra := h.extra ++ [(h.out.length, c)] }
-def HSt.withSt (h : HSt) (st : St) : HSt := { h with toSt := st }
+def HSt.emitH (h : HSt) (c : HChg) : HSt := { h with all := h.all ++ [.h c] }
+/-- continue with the state `st` of fragment G; what it has in `out` is moved to the change list -/
+def HSt.withSt (h : HSt) (st : St) : HSt := { h with toSt := { st with out := [] }, all := h.all ++ st.out.map Cmd2.g }
 def HSt.lift (h : HSt) (f : St → St) : HSt := h.withSt (f h.toSt)
 def HSt.liftO (h : HSt) (f : St → Option St) : Option HSt := (f h.toSt).map h.withSt
 
@@ -202,22 +213,7 @@ def runH (a b : Cfg) : Option HSt :=
   ((((initH a b).liftO fun st => diffAnchors st .tg).bind fun h => diffRules h false h.ta h.tb).bind fun h =>
     (h.liftO fun st => diffAnchors st .user).bind diffWeb).map deleteUnusedH
 
-/-- one command of the merged change list -/
-inductive Cmd2
-  | g (c : Chg)
-  | h (c : HChg)
-  deriving DecidableEq, Repr, Inhabited
-
-def Cmd2.render : Cmd2 → String
-  | .g c => c.render
-  | .h c => c.render
-
-/-- merge by position: the commands of this layer that were emitted when `out` had length `i` go before `out[i]` -/
-def mergeOut (out : List Chg) (extra : List (Nat × HChg)) : List Cmd2 :=
-  ((List.range (out.length + 1)).flatMap fun i =>
-    ((extra.filter fun p => p.1 == i).map fun p => Cmd2.h p.2) ++ (match out[i]? with | some c => [Cmd2.g c] | none => []))
-
-def engineH (a b : Cfg) : Option (List Cmd2) := (runH a b).map fun h => mergeOut h.out h.extra
+def engineH (a b : Cfg) : Option (List Cmd2) := (runH a b).map (·.all)
 
 def scriptH (a b : Cfg) : Option (List String) := (engineH a b).map (·.map Cmd2.render)
 
